@@ -148,11 +148,14 @@ class Compiler:
     def graph_node(self, node: dict) -> Any:
         inner = self.graph(node["graph"])
         gn = inner.as_node(name=node["name"])
+        touch = node.get("touch") or []
+        self._touch(gn, touch)
         for step in node.get("renames", []):
             if step.get("inputs"):
                 gn = gn.with_inputs(**step["inputs"])
             if step.get("outputs"):
                 gn = gn.with_outputs(**step["outputs"])
+            self._touch(gn, touch)
         if node.get("map_over"):
             gn = gn.map_over(
                 *node["map_over"],
@@ -161,6 +164,22 @@ class Compiler:
                 clone=node.get("clone", False),
             )
         return gn
+
+    @staticmethod
+    def _touch(gn: Any, touch: list) -> None:
+        """Use a wrapper object before deriving from it (introspection, placement in a throw-away graph):
+        a derived object must not inherit anything stale from an object that was already used."""
+        if "spec" in touch:
+            for p in gn.inputs:
+                gn.has_default_for(p)
+                gn.has_signature_default_for(p)
+                gn.get_input_type(p)
+            gn.map_inputs_to_params({p: 0 for p in gn.inputs})
+            gn.map_outputs_from_original({o: 0 for o in gn.outputs})
+            _ = gn.definition_hash
+        if "graph" in touch:
+            g0 = hg.Graph([gn])
+            _ = (g0.inputs, g0.outputs)
 
     def node(self, node: dict) -> Any:
         k = node["kind"]
